@@ -167,9 +167,11 @@ string_backslash = Parser.literal("\\", skip_whitespace_before=False)
 # trouble. We white-list what's reasonable.
 caret_parenthesis = Parser.regex(r"\^[$_=[\]\\{}|:/<>?]")
 
-local_symbol_literal = Parser.regex(r"\d[a-z_0-9$.]*")
-symbol_literal = Parser.regex(r"[a-z_$][a-z_0-9$.]*")
-instruction_name = Parser.regex(r"\.?[a-z_][a-z_0-9]*")
+# (?a:...): letters and digits are ASCII only. Without it, case-insensitive matching also accepts
+# U+212A KELVIN SIGN as 'k' or U+017F as 's', and \d accepts any Unicode digit.
+local_symbol_literal = Parser.regex(r"(?a:\d[a-z_0-9$.]*)")
+symbol_literal = Parser.regex(r"(?a:[a-z_$][a-z_0-9$.]*)")
+instruction_name = Parser.regex(r"(?a:\.?[a-z_][a-z_0-9]*)")
 
 
 @Parser
@@ -193,7 +195,7 @@ def number(ctx, terminator=never):
         ("^D", "A decimal", r"\d", 10)
     ):
         if Parser.literal(prefix)(ctx, maybe=True):
-            num = Parser.regex(rf"{digit_regex}+(?![$_.])\b", skip_whitespace_before=False)(ctx, report=(
+            num = Parser.regex(rf"(?a:{digit_regex}+(?![$_.])\b)", skip_whitespace_before=False)(ctx, report=(
                 reports.critical,
                 "invalid-number",
                 (ctx_start, ctx, f"{adjective} number was expected after '{prefix}'")
@@ -287,7 +289,7 @@ def number(ctx, terminator=never):
     raise reports.RecoverableError("Local label, not a number")
 
 
-radix50_chars = Parser.regex("[" + re.escape(radix50.TABLE.replace(" ", "")) + "]+", skip_whitespace_before=False)
+radix50_chars = Parser.regex("(?a:[" + re.escape(radix50.TABLE.replace(" ", "")) + "]+)", skip_whitespace_before=False)
 
 @Parser
 def radix50_literal(ctx):
@@ -321,7 +323,7 @@ def label(ctx):
     ctx.skip_whitespace()
     ctx_start = ctx.save()
 
-    name = Parser.regex(r"[a-z_0-9$.]+")(ctx)
+    name = Parser.regex(r"(?a:[a-z_0-9$.]+)")(ctx)
     colon(ctx)
 
     is_extern = bool(Parser.literal(":", skip_whitespace_before=False)(ctx, maybe=True))
